@@ -6,6 +6,7 @@ import time
 
 import bsyntax
 import gen_core
+import gen_scope
 import semrun
 import vlib
 
@@ -18,6 +19,8 @@ def run(tier, seed):
     table, ncells = gen_core.operator_table()
     nrand = 1500 if tier == "quick" else 20000
     rnd = gen_core.random_programs(seed, nrand)
+    shapes = gen_scope.programs()      # returns from inside every nesting of for / while / block / if
+    rnd = shapes + rnd
     progs = [(i, p) for i, p in enumerate(table + rnd)]
     oracle, res, bad = semrun.run_and_compare(progs)
     for pid, msg in sorted(bad.items())[:8]:
